@@ -243,3 +243,54 @@ def _integrate_log_factor(rp, st):
         e = mass * (np.asarray(to_float(exp["c"]), dtype=float) + np.asarray(to_float(exp["lnc"]), dtype=float))
         cmp_lin("return", val, e)
     return None, ("custom", val, chk)
+
+
+# ---------------------------------------------------------------------------------------------
+# NN-controlled conditional with an affine control function (exact rational weights)
+# ---------------------------------------------------------------------------------------------
+@binding("NewNN")
+def _new_nn(rp, st):
+    a = st["a"]
+    Wc = A(qarr(a["Wc"]))
+    w0c = A(qarr(a["w0c"]))
+
+    def control_func(u):
+        return u @ Wc + w0c[None]
+    return conditional.NNControlGaussianConditional(Sigma=A([qarr(a["Sigma"])]), num_cond_dim=int(a["Dx"]),
+                                                    num_control_dim=int(a["Du"]), control_func=control_func), None
+
+
+@binding("SetControl")
+def _set_control(rp, st):
+    a = st["a"]
+    return rp.heap[a["i"]].set_control_variable(stack_q(a["u"])), None
+
+
+@binding("NNOp")
+def _nn_op(rp, st):
+    a = st["a"]
+    c = rp.heap[a["i"]]
+    u = stack_q(a["u"])
+    op = a["op"]
+    p = rp.heap.get(a["j"]) if a["j"] else None
+    if op in ("joint", "marginal", "conditional"):
+        return getattr(c, f"affine_{op}_transformation")(p, u=u), None
+    if op == "set_y":
+        return c.set_y(stack_q(a["pts"]), u=u), None
+    if op == "cond_on_x":
+        x = stack_q(a["pts"])
+        return (c(x, u) if len(a["pts"]) == 1 else c.condition_on_x_u(x, u)), None
+    if op in ("conditional_entropy", "mutual_information"):
+        val = getattr(c, op)(p, u=u)
+
+        def chk(val, exp):
+            val = np.asarray(val)
+            cmp_lin("return", val, to_float(exp["ln"]))
+            if op == "mutual_information" and np.any(val < -1e-9):
+                raise Mismatch("return.sign", val.tolist(), ">= 0", "negative mutual information")
+        return None, ("custom", val, chk)
+    if op == "int_log_cond":
+        return None, ("ln", c.integrate_log_conditional(p, u=u))
+    if op == "int_log_cond_y":
+        return None, ("ln", c.integrate_log_conditional_y(p, u=u, y=stack_q(a["pts"])))
+    raise KeyError(op)
